@@ -13,4 +13,5 @@ Extraction "model.ml"
   cache_new world0 run_op_x run_op_a iter_new iter_run_x iter_run_a
   unwind_frame_x unwind_frame_a
   translate_x86 translate_a64 ms_unwind cap_mdata cap_amdata
+  prologue_x86 epilogue_x86 analysis_x86 prologue_a64 epilogue_a64 analysis_a64
   CACHE_ENTRY_COUNT.
